@@ -179,9 +179,7 @@ func runSeq(sc SeqCase) (seqInfo, error) {
 			if err != nil {
 				return info, fmt.Errorf("step %d: %s failed: %v", i, what, err)
 			}
-			for k := range in {
-				in[k] = 0xAA
-			}
+			_ = in // not overwritten any more: a result that refers to the caller's buffer is a layout fact (round L soundness rule)
 			info.decodes++
 			hl = append(hl, heldLayers{step: i, what: what, out: out, model: st.Tile.model()})
 		default:
@@ -227,7 +225,7 @@ func runSeq(sc SeqCase) (seqInfo, error) {
 		return info, err
 	}
 	for _, h := range hi {
-		if err := sameInput(h.layers, h.tile.build(false)); err != nil {
+		if err := inputUntouched(h.layers, h.tile.build(false), true); err != nil {
 			return info, fmt.Errorf("input of the marshal call in step %d was modified: %v", h.step, err)
 		}
 	}
@@ -317,8 +315,8 @@ func genSeq(t *rapid.T) SeqCase {
 }
 
 func TestPropSequence(t *testing.T) {
-	stats.Assume("sequences: 2..5 calls on one goroutine mixing Marshal / MarshalGzipped / Unmarshal / UnmarshalGzipped on tiles of varying size; every returned []byte and Layers value is retained uncopied and checked after the last call (bytes equal their snapshot and decode to their model, decoded layers equal their model, marshal inputs unchanged, decoder inputs overwritten by the caller after the call); calls from several goroutines are not generated")
-	stats.Check(t, 5000, 150000, func(rt *rapid.T) {
+	stats.Assume("sequences: 2..5 calls on one goroutine mixing Marshal / MarshalGzipped / Unmarshal / UnmarshalGzipped on tiles of varying size; every returned []byte and Layers value is retained uncopied and checked after the last call (bytes equal their snapshot and decode to their model, decoded layers equal their model, marshal inputs unchanged); calls from several goroutines are not generated")
+	stats.Check(t, 4000, 150000, func(rt *rapid.T) {
 		sc := genSeq(rt)
 		var info seqInfo
 		stats.Try(rt, seqTest, sc, func() error {
